@@ -2415,18 +2415,24 @@ As a workaround use x.as_expr() %s y.as_expr()""" % op)
 
                 if is_causal and arg < 0:
                     return 0
+                def exact(arg):
+                    # SymPy's limit is unreliable at a Float point
+                    # (inexact cancellation with repeated factors)
+                    # so use the exact rational value of the float.
+                    return sym.nsimplify(arg, rational=True)
+
                 try:
                     result = func1(arg)
                 except ZeroDivisionError:
-                    expr_limit = expr.limit(var, arg)
+                    expr_limit = expr.limit(var, exact(arg))
                     result = complex(expr_limit)
 
                 # If get NaN evaluate limit.  This helps for sin(t) / t.
                 if np.isnan(result):
-                    result = complex(expr.limit(var, arg))
+                    result = complex(expr.limit(var, exact(arg)))
                 # u(t) -
                 if np.isinf(result):
-                    result = complex(sym.simplify(expr).limit(var, arg))
+                    result = complex(sym.simplify(expr).limit(var, exact(arg)))
                 return result
 
             try:
